@@ -1,4 +1,4 @@
-from checks import concfam
+from checks import concfam, osfam
 GUARDS = {"BlockConservation.dup", "BlockConservation.lost", "ListsStayInPage", "QuiescentClean", "NoBlowUp", "WalkCount", "Invariant.Inv"}
 def run(tier, seed):
     jobs = [
@@ -16,6 +16,17 @@ def run(tier, seed):
         {"prog": "pc", "strategy": "pct", "runs": (1, 6), "args": [], "env": {"MIMALLOC_GENERIC_COLLECT": "1000000"}},
         {"prog": "pc", "strategy": "random", "runs": (1, 6), "args": ["--rate", "2"], "env": {"MIMALLOC_GENERIC_COLLECT": "1000000"}},
     ]
-    return concfam.run_conc("C08", tier, seed, jobs, GUARDS, step_guards=concfam.STEP_GUARDS, mc=("MiPage", ("MiPage_mc.cfg", "MiPage_mc_thorough.cfg")), guided_progs=("page",),
+    # remote frees into pages that the allocator abandoned by force (MIMALLOC_TARGET_SEGMENTS_PER_THREAD): the producer exits with everything live,
+    # a consumer frees all of it; at quiescence nothing the program wrote may be left behind (OS-level accounting)
+    q = tier == "quick"
+    oruns = []
+    for tag, env in (("relay.tspt", {"MIMALLOC_TARGET_SEGMENTS_PER_THREAD": "2"}), ("relay.tspt.os", {"MIMALLOC_TARGET_SEGMENTS_PER_THREAD": "2", "MIMALLOC_DISALLOW_ARENA_ALLOC": "1"}),
+                     ("relay.tspt1", {"MIMALLOC_TARGET_SEGMENTS_PER_THREAD": "1", "MIMALLOC_ABANDONED_RECLAIM_ON_FREE": "0"}), ("relay", {})):
+        oruns.append({"args": ["--workload", "relay", "--rounds", "3" if q else "6"], "env": dict(env), "tag": tag, "build": "rel"})
+        oruns.append({"args": ["--workload", "mt", "--rounds", "3" if q else "6"], "env": dict(env), "tag": tag.replace("relay", "mt"), "build": "rel" if q else "dbg"})
+    V, ocov = osfam.run_os("C08", tier, seed, oruns, builds=["rel", "dbg"], own_guards={"AllReleased", "DirtyAllReleased", "QuiesceNoLive", "NoCreepMapped", "Invariant.Inv"},
+                           crash_decisive=True, group=2, finish=False, outname="C08os")
+    return concfam.run_conc("C08", tier, seed, jobs, GUARDS, step_guards=concfam.STEP_GUARDS, V=V,
+                            extra_cov={"forced_abandonment": {k: ocov[k] for k in ("traces_validated_against_impl", "trace_events_validated", "os_events", "runs_sample")}}, mc=("MiPage", ("MiPage_mc.cfg", "MiPage_mc_thorough.cfg")), guided_progs=("page",),
                             assumptions=["QuiescentClean is demanded after a forced mi_heap_collect of the owner's (user) heap once every block was freed by whichever thread",
                                          "NoBlowUp compares the maximum number of page areas of the producer heap in the second half of 2400 rounds with the first half (+2 + an eighth of it), with the default and a maximal MIMALLOC_GENERIC_COLLECT"])
